@@ -208,19 +208,21 @@ struct Rt : FSM::State {
   void update(FullControl& c) { vrec(27, 0); full_act(c, -1, false); }
   void postUpdate(FullControl&) { vrec(28, 0); phases_done = true; take_plan_step_snapshot(); }     // the last phase callback of update()
   void postReact(const int&, FullControl&) { vrec(31, 0); phases_done = true; take_plan_step_snapshot(); }
-  void planSucceeded(FullControl&) { vrec(41, 0); settle_firings(); n_psucc++;
+  void planSucceeded(FullControl& c) { vrec(41, 0); settle_firings(); n_psucc++;
     VA(call_kind == CALL_CYCLE && phases_done && !guards_started, 901);
     bool any = cyc_succ_calls > 0; for (int i = 0; i < NST; ++i) any = any || succ_may[i];
     VA(any, 902);                                                         // success is outstanding
     VA(mn == 0, 903);                                                     // and no task remains
     VA(ever_added, 904);                                                  // never on a machine to which no task has been added since activation
+    if (EDITS && !passive && (nondet_u8() & 1)) { const bool aao = appended_after_outcome; do_append(c.plan()); appended_after_outcome = aao; }   // a handler may plan again: the clearing that follows the callback removes that too
     mn = 0; model_clear_reports(); }
-  void planFailed(FullControl&) { vrec(42, 0); settle_firings(); n_pfail++;
+  void planFailed(FullControl& c) { vrec(42, 0); settle_firings(); n_pfail++;
     VA(call_kind == CALL_CYCLE && phases_done && !guards_started, 901);
     bool any = cyc_fail_calls > 0; for (int i = 0; i < NST; ++i) any = any || fail_may[i];
     VA(any, 906);                                                         // a task failure is outstanding
     VA(ever_added, 904);
     VA(n_fired == 0, 905);
+    if (EDITS && !passive && (nondet_u8() & 1)) { const bool aao = appended_after_outcome; do_append(c.plan()); appended_after_outcome = aao; }   // a handler may plan again: the clearing that follows the callback removes that too
     mn = 0; model_clear_reports(); }
 };
 
